@@ -57,10 +57,14 @@ def main():
     cases = 0
     bad = []
     version_sets = [[0], [0, 1], [0, 2], [1], [0, 1, 3], [2]]
-    for fa, ga in itertools.product(version_sets[:5], version_sets[:3]):
+    # method names: plain ones, and names that themselves look like a generated variant (end in _v<digits>) or contain '_v'
+    name_shapes = [('f', 'g', 'h'), ('pay_v2', 'g', 'h_v1'), ('f', 'get_value', 'x_v')]
+    for (fa, ga), (nf, ng, nh) in itertools.product(itertools.product(version_sets[:5], version_sets[:3]), name_shapes):
+        if (nf, ng, nh) != name_shapes[0] and (len(fa) > 2 or ga == [0, 2]):
+            continue      # the full version grid for the plain names, a sub-grid for the other name shapes
         for ha in version_sets[:4]:
-            new_obj = {'f': fa, 'g': ga}
-            new_cons = {'h': ha}
+            new_obj = {nf: fa, ng: ga}
+            new_cons = {nh: ha}
             allv = sorted(set(fa) | set(ga) | set(ha))
             for cut in allv:
                 old_obj = dict((m, [v for v in vs if v <= cut]) for m, vs in new_obj.items())
@@ -74,6 +78,10 @@ def main():
                 for k, i in t_old.items():
                     if t_new.get(k) != i:
                         bad.append(('O17.1 id changed', new_obj, new_cons, cut, k, i, t_new.get(k)))
+                # exactly one id per implementation (method, version) - no id for the public alias, none missing
+                want_keys = set('%s_v%d' % (m, v) for m, vs in new_obj.items() for v in vs) | set(('cons', '%s_v%d' % (m, v)) for m, vs in new_cons.items() for v in vs)
+                if set(t_new) != want_keys or len(o_new._idToMethod) != len(want_keys):
+                    bad.append(('O17.1 ids are not exactly the implementations', new_obj, new_cons, sorted(map(str, set(t_new) ^ want_keys))))
                 if getattr(o_new, '_SyncObj__selfCodeVersion') != max(allv):
                     bad.append(('O17.1 selfCodeVersion', new_obj, new_cons))
                 # every order of calls, and with the enabled version already holding the target value (that is the state in which
